@@ -212,6 +212,7 @@ where
         // a valid index into `self.location.identifier`, since an identifier has `R::LEN` bits.
         unsafe { self.location.identifier.get_unchecked(component_index) } {
             // The component exists and needs to be removed.
+            let previous_identifier = self.location.identifier;
             let (entity_identifier, current_component_bytes) =
                 // SAFETY: An archetype with this identifier is guaranteed to exist, since there is an
                 // allocated location for it in the entity allocator.
@@ -272,6 +273,33 @@ where
                     .modify_location_unchecked(entity_identifier, location);
             }
             self.location = location;
+
+            // Drop the removed component, which is still stored within the buffer. This is done
+            // last, so that the world is in a consistent state if the component's `Drop`
+            // implementation panics.
+            let mut preceding_identifier_buffer = previous_identifier.as_vec();
+            for (index, byte) in preceding_identifier_buffer.iter_mut().enumerate() {
+                if index > component_index / 8 {
+                    *byte = 0;
+                } else if index == component_index / 8 {
+                    *byte &= (1 << (component_index % 8)) - 1;
+                }
+            }
+            let offset =
+                // SAFETY: `preceding_identifier_buffer` was obtained from a valid identifier, so
+                // it is of the proper length.
+                unsafe { archetype::Identifier::<Registry>::new(preceding_identifier_buffer) }
+                    .size_of_components();
+            // SAFETY: `current_component_bytes` contains a valid `Component` at `offset`, since
+            // `offset` is the combined size of all components preceding it in the buffer. That
+            // value was not moved into the new archetype, so ownership of it is taken here.
+            drop(unsafe {
+                current_component_bytes
+                    .as_ptr()
+                    .add(offset)
+                    .cast::<Component>()
+                    .read_unaligned()
+            });
         }
     }
 
